@@ -18,6 +18,54 @@ import (
 // guardProgress counts finished pool items of the whole process.
 var guardProgress atomic.Int64
 
+// Open pool items with the instant they were started: one worker spinning inside vegeta must not
+// hide behind the other workers of its pool, which keep finishing items (DESIGN 10.26).
+var guardOpen = struct {
+	sync.Mutex
+	m    map[int64]time.Time
+	next int64
+}{m: map[int64]time.Time{}}
+
+func guardBegin() int64 {
+	guardOpen.Lock()
+	defer guardOpen.Unlock()
+	guardOpen.next++
+	guardOpen.m[guardOpen.next] = time.Now()
+	return guardOpen.next
+}
+
+var guardMaxItem atomic.Int64 // longest finished item, ns (VERIF_GUARD_TRACE prints it)
+
+func guardEnd(tok int64) {
+	guardOpen.Lock()
+	d := int64(time.Since(guardOpen.m[tok]))
+	delete(guardOpen.m, tok)
+	guardOpen.Unlock()
+	for {
+		m := guardMaxItem.Load()
+		if d <= m || guardMaxItem.CompareAndSwap(m, d) {
+			break
+		}
+	}
+	guardProgress.Add(1)
+}
+
+func guardOldest() time.Duration {
+	guardOpen.Lock()
+	defer guardOpen.Unlock()
+	var d time.Duration
+	for _, t := range guardOpen.m {
+		if a := time.Since(t); a > d {
+			d = a
+		}
+	}
+	return d
+}
+
+// guardItemWindow is how long one pool item may stay unfinished while a goroutine is seen running
+// inside vegeta in every dump before it is called spinning. Items take milliseconds to seconds.
+const guardItemWindow = 150 * time.Second
+
 const guardExit = 97
 
 // guardedWait is wg.Wait() with the guard.
@@ -26,11 +74,39 @@ func guardedWait(wg *sync.WaitGroup) {
 	go func() { wg.Wait(); close(done) }()
 	blocked := 0
 	lastProgress, lastChange := guardProgress.Load(), time.Now()
+	busySince := map[string]int{} // goroutine id -> successive dumps in which it was running inside vegeta
 	for {
 		select {
 		case <-done:
+			if os.Getenv("VERIF_GUARD_TRACE") != "" {
+				fmt.Fprintf(os.Stderr, "GUARD-TRACE longest pool item %v\n", time.Duration(guardMaxItem.Load()))
+			}
 			return
 		case <-time.After(250 * time.Millisecond):
+		}
+		// (c) one item of the pool has been open for guardItemWindow and, for the last 240 dumps
+		// (>= 60 s), one and the same goroutine was running or runnable inside vegeta in every one
+		// of them - never parked, never waiting for input, never back in the harness.
+		if guardOldest() > guardItemWindow/2 {
+			gs := goroutineDump()
+			seen := map[string]bool{}
+			for _, g := range gs {
+				if (g.State == "running" || g.State == "runnable") && isVegetaG(g) {
+					seen[g.ID] = true
+					busySince[g.ID]++
+					if busySince[g.ID] >= 240 && guardOldest() > guardItemWindow {
+						guardDie("spinning", []gInfo{g})
+					}
+				}
+			}
+			if os.Getenv("VERIF_GUARD_TRACE") != "" {
+				fmt.Fprintf(os.Stderr, "GUARD-TRACE oldest=%v busy=%v\n", guardOldest(), busySince)
+			}
+			for id := range busySince {
+				if !seen[id] {
+					delete(busySince, id)
+				}
+			}
 		}
 		if p := guardProgress.Load(); p != lastProgress {
 			lastProgress, lastChange, blocked = p, time.Now(), 0
@@ -73,4 +149,44 @@ func guardedWait(wg *sync.WaitGroup) {
 func guardDie(kind string, gs []gInfo) {
 	fmt.Fprintf(os.Stderr, "fatal error: verif: call-into-vegeta-never-returns/%s: a worker of the monitor is inside a vegeta call that does not return\n\n%s\n", kind, describeGs(gs))
 	os.Exit(guardExit)
+}
+
+// itemSpin is the guard for a pool item that can count the progress of its own attack (targets
+// drawn, results received): tick is called every 250 ms or so while the item waits for the
+// attack's end. When the count has not moved for more than 10 s and 40 ticks and one and the same
+// goroutine was running or runnable inside vegeta in every dump taken since, a worker spins: the
+// process ends like in guardedWait (the spinning goroutine cannot be stopped and would burn a
+// processor under every later item, DESIGN 10.26). A stalled attack whose worker is parked or
+// asleep decides nothing here.
+type itemSpin struct {
+	last  int64
+	since time.Time
+	ticks int
+	busy  map[string]int
+}
+
+func (s *itemSpin) tick(p int64) {
+	if s.since.IsZero() || p != s.last {
+		s.last, s.since, s.ticks, s.busy = p, time.Now(), 0, nil
+		return
+	}
+	if time.Since(s.since) < 2*time.Second {
+		return
+	}
+	s.ticks++
+	if s.busy == nil {
+		s.busy = map[string]int{}
+	}
+	var culprit *gInfo
+	gs := goroutineDump()
+	for i, g := range gs {
+		if (g.State == "running" || g.State == "runnable") && isVegetaG(g) {
+			if s.busy[g.ID]++; s.busy[g.ID] == s.ticks {
+				culprit = &gs[i]
+			}
+		}
+	}
+	if culprit != nil && s.ticks >= 40 && time.Since(s.since) > 10*time.Second {
+		guardDie("spinning", []gInfo{*culprit})
+	}
 }
